@@ -50,6 +50,16 @@ def make_tasks(mod, plan, verif_seed):
             })
         per.append(chunks)
     out = []
+    # systematic sweeps ('priority' configs) are dispatched before the random sampling: a deadline cut then only
+    # shortens the sampling, never the enumerated sub-space
+    prio = [chunks for chunks in per if chunks and chunks[0]['config'].get('priority')]
+    per = [chunks for chunks in per if not (chunks and chunks[0]['config'].get('priority'))]
+    j = 0
+    while any(j < len(c) for c in prio):
+        for chunks in prio:
+            if j < len(chunks):
+                out.append(chunks[j])
+        j += 1
     i = 0
     while any(per):
         for chunks in per:
@@ -187,13 +197,20 @@ def check(prop, tier, verif_seed, budget_override=None):
         if done:
             step = max(1, len(done) // plan.get('determinism_chunks', 3))
             picks = done[::step][:plan.get('determinism_chunks', 3)]
-            for t in picks:
-                t = dict(t)
-                t['indices'] = t['indices'][:plan.get('determinism_runs_per_chunk', 25)]
+            import concurrent.futures as _cf
+            picks = [dict(t, indices=t['indices'][:min(plan.get('determinism_runs_per_chunk', 25),
+                                                       t['config'].get('det_runs', 25))]) for t in picks]
+
+            def _rerun(t):
                 try:
-                    d = runner.rerun_in_fresh_interpreter(mod.__name__, t)
+                    return runner.rerun_in_fresh_interpreter(mod.__name__, t)
                 except Exception as e:  # noqa: BLE001
-                    print(f'HARNESS-ERROR {prop}: determinism re-run failed: {e}', flush=True)
+                    return e
+            with _cf.ThreadPoolExecutor(max_workers=len(picks)) as ex:
+                reruns = list(ex.map(_rerun, picks))
+            for t, d in zip(picks, reruns):
+                if isinstance(d, Exception):
+                    print(f'HARNESS-ERROR {prop}: determinism re-run failed: {d}', flush=True)
                     exit_code = runner.EXIT_HARNESS
                     break
                 det['chunks'] += 1
